@@ -62,6 +62,7 @@ class HoldInSend:
 
 def run_one(sc, prefix=(), seed=0, keep=False):
     nsc = {'dll': DLL, 'base_lat': sc.get('base_lat', 1e-3), 'wake_grid': sc.get('wake_grid'), 'send_cost': sc.get('send_cost', 0.0),
+           'rx_threads': sc.get('rx_threads'),
            'stacks': [{'name': 'A', 'cas': [A_], 'win': 1}, {'name': 'B', 'cas': [B_], 'win': 1}, {'name': 'C', 'cas': [C_], 'win': 1}]}
     hold = HoldInSend(sc['preempt']) if sc.get('preempt') is not None else None
     net = Net(nsc, prefix, trace_factory=hold)
@@ -81,6 +82,24 @@ def run_one(sc, prefix=(), seed=0, keep=False):
             # a connection-mode transfer of the same stack is in progress (its peer answers slowly: the bus latency of the
             # scenario): its session deadlines (T3 1.25 s, T5 3 s) must not postpone the collection buffers
             net.submit({'src': A_, 'kind': 'p2p', 'dst': B_, 'size': sc['transfer'], 'pat': 1, 'pf': 0xD5}, seed + 50)
+        react = sc.get('react')
+        if react:
+            # B answers A's first group with a group of its own; A's listener reacts to that answer by submitting the next
+            # group from inside the receive callback (on whichever thread the bus of the scenario delivers the answer: the
+            # scheduler / a receive thread, or - latency 0 - the thread that is inside A's send call)
+            done = {}
+
+            def on_b(priority, pgn, sa, timestamp, data):
+                if sa == A_ and 'b' not in done:
+                    done['b'] = True
+                    net.submit({'src': B_, 'kind': 'p2p', 'dst': A_, 'size': 5, 'tl': react['rtl'], 'pat': 2, 'pf': 0xD3}, seed + 70)
+
+            def on_a(priority, pgn, sa, timestamp, data):
+                if sa == B_ and 'a' not in done:
+                    done['a'] = True
+                    net.submit(call_msg({'len': react['len'], 'tl': react['tl'], 'tg': 'B'}), seed + 71)
+            net.owner[B_][1].subscribe(on_b)
+            net.owner[A_][1].subscribe(on_a)
         t = 0.0
         for i, c in enumerate(sc['calls']):
             t += c.get('off', 0.0)
@@ -100,8 +119,10 @@ def run_one(sc, prefix=(), seed=0, keep=False):
             else:
                 w.at(w.now + t, lambda m=m, i=i: net.submit(m, seed + i))
         tmax = max(c['tl'] for c in sc['calls'])
-        w.run_for(t + tmax + 0.05 + (3.5 if sc.get('transfer') else 0.0))
+        w.run_for(t + tmax + 0.05 + (3.5 if sc.get('transfer') else 0.0) + ((react['rtl'] + react['tl'] + 0.01) if react else 0.0))
         probs = []
+        if react and len(net.sent) != len(sc['calls']) + 2:
+            probs.append("the groups submitted from the receive callbacks: %d of 2 calls of send_pgn returned" % (len(net.sent) - len(sc['calls'])))
         for e in app_exc:
             probs.append("send_pgn raised %s in the application thread" % e)
         if hold is not None:
@@ -143,8 +164,8 @@ def run_one(sc, prefix=(), seed=0, keep=False):
         # ---- match submitted groups
         lam = max(sc.get('wake_grid') or [50e-6]) + 2e-4 + 2 * sc.get('send_cost', 0.0) + (1e-3 if hold is not None else 0.0)
         for (m, r, _b0, _b1, data) in net.sent:
-            if m['size'] > 60:
-                continue                     # the connection-mode transfer in the background (judged by the delivery oracle)
+            if m['size'] > 60 or m['src'] != A_:
+                continue                     # the connection-mode transfer in the background / B's answer (judged by the delivery oracle)
             fb = m.get('ff', 3) == 2
             if fb and m['kind'] == 'p2p':
                 continue
@@ -309,6 +330,17 @@ def scenarios(tier):
                     for frac in (-0.3, 0.1, 0.5, 0.9, 1.2):
                         for tg in ('B', 'FB'):
                             out.append(({'calls': [call(l1, tl1, tg), call(l2, tl2, tg, tl1 + 50e-6 + frac * cost)], 'send_cost': cost}, 0))
+    # (vii) a group submitted from inside a receive callback, in reaction to the peer's answer to the previous group; the
+    #       answer is handled by the scheduler, by a receive thread, or (bus latency 0) inside the send call of the job thread
+    for (lat, rxt) in ((0.0, False), (1e-3, False), (1e-3, True), (50e-6, True)):
+        for tl1 in LIMITS[:3]:
+            for rtl in (0, 0.010):
+                for tl2 in LIMITS:
+                    for ln in (8, 57):
+                        sc = {'calls': [call(8, tl1, 'B')], 'react': {'rtl': rtl, 'tl': tl2, 'len': ln}, 'base_lat': lat}
+                        if rxt:
+                            sc['rx_threads'] = True
+                        out.append((sc, 0))
     for tl in LIMITS[1:]:
         for pre in (None, 'after_pass', 'timer_sooner', 'timer_later'):
             for via in ('app', 'timer'):
@@ -325,7 +357,8 @@ RULE = ("call sequences on a real J1939-22 stack with two receiving stacks: ever
         "{1,8,26,27,28,56,57,60} and time-limit tuples; all 2-/3-call (thorough 4) sequences over the destination/format classes; "
         "homogeneous sequences of 4..12 calls; two-call sequences with submission offsets {0,4.9,20 ms}, four instants relative to the "
         "job thread's sleep, from the application thread and from a timer callback, each with every single wake-latency deviation "
-        "{0.05,1,5 ms}; frames decoded by the reference codec; non-trivial if more than one call or a non-zero time limit")
+        "{0.05,1,5 ms}; a group submitted from inside a receive callback in reaction to the peer's answer, that answer handled by the "
+        "scheduler, a receive thread or (bus latency 0) inside the job thread's own send call; frames decoded by the reference codec; non-trivial if more than one call or a non-zero time limit")
 ASSUME = ["multi-PG layout (4-byte C-PG header, TOS 2 / TF 0, padding = TOS-0 header then filler) from the harness author's knowledge of J1939-22",
           "scheduling latency = largest wake latency of the run + 0.2 ms", "base-format (FBFF) frames are judged by the reference decoder only"]
 
